@@ -97,11 +97,20 @@ def merge_fingerprints(outdir, nshards=NSHARDS):
     return len(fps)
 
 
+# counters that describe the (shared) workload rather than per-shard work: every shard reports the
+# same number, so they are merged by max, not by sum
+SHARED_COUNTERS = ("programs", "theories", "base_texts", "units_total", "images_total", "c04_max_index_copies_seen",
+                   "c04_max_index_copies_per_relation")
+
+
 def merge_counts(results, key):
     out = {}
     for r in results:
         for k, v in r.get(key, {}).items():
-            out[k] = out.get(k, 0) + v
+            if k in SHARED_COUNTERS:
+                out[k] = max(out.get(k, 0), v)
+            else:
+                out[k] = out.get(k, 0) + v
     return dict(sorted(out.items()))
 
 
